@@ -35,7 +35,9 @@ prop('C01', title='Interest and Data packets survive an encode/decode round trip
                 'size, SignatureValueField with a signer that returns fewer bytes than reserved, and make_data with the real field list '
                 'unrolled: exactly one well-formed element with exact, shortest-form lengths for every name form / MetaInfo / content / '
                 'signer. make_interest and the parse-back equality are covered by the bounded stand-in only.',
-     level_note='Trusted: pyvc, z3, builtin models, Signer interface (assumed), nested plain models via the generic TlvModel contracts. '
+     level_note='Trusted: pyvc, z3, builtin models, nested plain models via the generic TlvModel contracts. The Signer interface the packet '
+                'proofs assume (reserved size S, at most S bytes written at the start of a buffer of exactly S bytes, nothing else touched) '
+                'is itself proved for the six shipped signers (digest, HMAC, RSA, ECDSA, Ed25519, null) with the primitives assumed. '
                 'Bounded part: round trips over boundary sizes x all shipped signers.',
      technique=T_MIXED)
 prop('C02', title='Signatures and parameter digests cover the specified bytes; tampering detected', level='proof',
@@ -51,7 +53,9 @@ prop('C02', title='Signatures and parameter digests cover the specified bytes; t
                 'other signature types; from_key\'s validator insists on a key locator under the configured key name. '
                 'The other parse-side ranges, acceptance by the matching verifier and tamper rejection are a bounded stand-in with '
                 'real crypto.',
-     level_note='Unforgeability of RSA/ECDSA/HMAC/Ed25519 and SHA-256 are assumed (Cryptodome/hashlib); "no differing packet is accepted" '
+     level_note='Signing side: each shipped signer writes the primitive\'s output for the hash over EVERY covered block in order (its own key, '
+                'its own type and key locator in the SignatureInfo). Unforgeability of RSA/ECDSA/HMAC/Ed25519 and SHA-256 and the output '
+                'lengths of the primitives are assumed (Cryptodome/hashlib); "no differing packet is accepted" '
                 'is only sampled.',
      technique=T_MIXED)
 prop('C03', title='Every expressed Interest completes exactly once with the right outcome', level='exploration',
